@@ -6,7 +6,9 @@ from ..coqeval import eval_checks
 from ..util import run_cli, workdir, shrink_list
 from .. import stats_gen as G
 
-RULE = ("seeded random VCFs run through the real CLI `whatshap stats --tsv --block-list --gtf` (+ --only-snvs 30%, "
+RULE = ("exhaustive: every sequence of up to 3 (thorough: 4 PS-tagged, 3 HP-tagged) calls out of {het in set 7, het in set 3, "
+        "unphased het, homozygous with PS/HP, missing, partially missing with PS/HP, indel het} on one chromosome; plus "
+        "seeded random VCFs run through the real CLI `whatshap stats --tsv --block-list --gtf` (+ --only-snvs 30%, "
         "--chromosome 35% incl. comma lists / names absent from the file / header contigs without records, --sample, "
         "bgzip+tabix indexed input 25%): ploidy 2 (2/3 of the cases) or 1, 3, 4; 1-3 samples; 1-4 chromosomes; per "
         "chromosome PS-tagged, HP-tagged, `|` without PS key, or unphased; 0-4 phase sets per sample laid out "
@@ -322,13 +324,24 @@ def run(ctx):
     wd = workdir(ctx)
     cases = [F4_CORPUS, OVERLAP_CORPUS, dict(OVERLAP_CORPUS, only_snvs=True), dict(OVERLAP_CORPUS, chromosomes=["chrB"]),
              dict(OVERLAP_CORPUS, indexed=True, chromosomes=["chrB,chrA"])]
-    n = ctx.n(300, 5000)
+    exh = list(G.gen_exhaustive(ctx.n(3, 4), "PS", symbols=ctx.n("abuhmp", "abuhmpi")))
+    if not ctx.quick:
+        exh += list(G.gen_exhaustive(3, "HP"))
+    cases += exh
+    ctx.exhaustive = True
+    ctx.extra["exhaustive_space"] = (f"{len(exh)} cases: every sequence of up to {ctx.n(3, 4)} calls from {{het in set 7, het in set 3, "
+                                     "het unphased, hom with PS/HP, missing, partially missing with PS/HP" + ("" if ctx.quick else ", indel het in set 7") + "} "
+                                     "on one chromosome (PS tags" + ("" if ctx.quick else " and HP tags") + "), sequences with an indel also under --only-snvs")
+    n = ctx.n(250, 3000)
     for i in range(n):
         size = "tiny" if i % 5 == 0 else ("large" if i % 7 == 0 else "small")
         cases.append(G.gen_case(rng, size))
+    import time
+    t0 = time.time()
     results = []
     for off in range(0, len(cases), 400):
         results += run_cases(ctx, cases[off:off + 400], wd, base=off)
+    ctx.log(f"{len(cases)} cases run through the CLI in {time.time() - t0:.0f}s")
     for r in results:
         c = r["case"]
         key = (G.case_term(bool(c.get("only_snvs")), bool(c.get("indexed")), r["contigs"], r["groups"], r["given"], r["ids"], "EOther"))
@@ -358,7 +371,9 @@ def run(ctx):
                     "vcf_records": [l for l in r["case"]["vcf"].split("\n") if l and not l.startswith("#")][:12],
                     "impl": r["out"] if isinstance(r["out"], str) else {"rows": r["out"]["rows"], "all": r["out"]["all"],
                                                            "block_list": r["out"]["bl"], "gtf": r["out"]["gtf"]}})
+    t0 = time.time()
     failing, l1 = check_batch(ctx, results, wd, "main")
+    ctx.log(f"Coq evaluation, classification and minimisation in {time.time() - t0:.0f}s")
     ctx.extra["l1_failures"] = len(l1)
     if failing["L2"]:
         bad = [results[i] for i in failing["L2"]]
